@@ -347,7 +347,112 @@ func c10PartialTimes(c *core.Ctx, idx int) {
 	}
 }
 
+// c10Keyless: map entries whose key field is left out (the key is the empty string: writers that
+// omit default values do that) in second or later position, after an entry with a key, for the
+// JSON object codec and for ordinary string-keyed maps, into nil, empty and populated targets.
+func c10Keyless(c *core.Ctx, idx int) {
+	rec := c.Rec
+	r := c.Rand(idx)
+	cfg := instCfgs()[(idx/17)%4]
+	name := cfgName(cfg)
+	p := instNew(cfg)
+	T := reflect.TypeOf
+	for round := 0; round < 12; round++ {
+		mt := []reflect.Type{model.JSONMapT, T(map[string]int64(nil)), T(map[string]string(nil)), T(map[string]types.Leaf(nil)), model.JSONMapT}[r.IntN(5)]
+		ht := reflect.StructOf([]reflect.StructField{{Name: "M", Type: mt, Tag: `plenc:"1"`}, {Name: "Z", Type: T(int8(0)), Tag: `plenc:"2"`}})
+		if cfg.Validate(ht, "") != "" {
+			continue
+		}
+		vg := &gen.VG{R: r, C: cfg, Budget: 12, ValidUTF8: true}
+		one := func(key string, val reflect.Value) []byte {
+			h := reflect.New(ht).Elem()
+			m := reflect.MakeMap(mt)
+			m.SetMapIndex(reflect.ValueOf(key), val)
+			h.Field(0).Set(m)
+			e := cfg.Encode(h)
+			if len(e) < 3 || e[0] != 0x0b || e[1] != 0x01 || int(e[2]) != len(e)-3 || e[2] >= 0x80 {
+				return nil
+			}
+			return e[2:]
+		}
+		val := func() reflect.Value {
+			for {
+				v := vg.Value(mt.Elem(), "")
+				if mt.Elem().Kind() != reflect.Interface || !v.IsNil() {
+					return v
+				}
+			}
+		}
+		n := 2 + r.IntN(3)
+		keyless := 1 + r.IntN(n-1)
+		var entries [][]byte
+		for i := 0; i < n; i++ {
+			key := []string{"a", "b", "key", "k" + fmt.Sprint(i)}[r.IntN(4)]
+			if i == keyless {
+				key = ""
+			}
+			e := one(key, val())
+			if e == nil {
+				entries = nil
+				break
+			}
+			if i == keyless {
+				// drop the (empty) key field: tag 0x0a, length 0
+				if len(e) < 3 || e[1] != 0x0a || e[2] != 0x00 {
+					entries = nil
+					break
+				}
+				e = append([]byte{e[0] - 2}, e[3:]...)
+			}
+			entries = append(entries, e)
+		}
+		if entries == nil {
+			continue
+		}
+		data := []byte{0x0b, byte(len(entries))}
+		for _, e := range entries {
+			data = append(data, e...)
+		}
+		data = append(data, 0x10, 0x02)
+		for _, shape := range []string{"nil map", "empty map", "map that holds the empty key"} {
+			prior := reflect.New(ht).Elem()
+			switch shape {
+			case "empty map":
+				prior.Field(0).Set(reflect.MakeMap(mt))
+			case "map that holds the empty key":
+				m := reflect.MakeMap(mt)
+				m.SetMapIndex(reflect.ValueOf(""), val())
+				m.SetMapIndex(reflect.ValueOf("keep"), val())
+				prior.Field(0).Set(m)
+			}
+			got, want := reflect.New(ht), reflect.New(ht)
+			got.Elem().Set(model.DeepCopy(prior))
+			want.Elem().Set(model.DeepCopy(prior))
+			if err := cfg.Decode(want.Elem(), data); err != nil {
+				rec.Count("keyless_messages_the_reference_rejects", 1)
+				break
+			}
+			err, pn := unmarshal(p, data, got.Interface())
+			rec.Eval(1)
+			if err != nil || pn != "" {
+				rec.Violation("merge", fmt.Sprintf("[%s] a map whose entry %d of %d has no key field is rejected (target: %s): %v %s\n  type %s\n  bytes %s", name, keyless+1, n, shape, err, trunc1(pn), typeString(ht), hexHead(data)), nil)
+				return
+			}
+			if d := model.Diff(want.Elem(), got.Elem(), "$"); d != "" {
+				rec.Violation("merge", fmt.Sprintf("[%s] a map whose entry %d of %d has no key field (the key is the empty string) decoded into a %s: %s\n  type %s\n  bytes %s\n  got  %s\n  want %s", name, keyless+1, n, shape, d, typeString(ht), hexHead(data), model.Show(got.Elem()), model.Show(want.Elem())), nil)
+				return
+			}
+			rec.Count("keyless_entry_decodes", 1)
+			rec.NonTrivial(core.Hash64("keyless", ht.String(), shape, fmt.Sprint(idx, round)))
+		}
+	}
+}
+
 func c10Case(c *core.Ctx, idx int) {
+	if idx%17 == 9 && c.Lane != "race" {
+		c10Keyless(c, idx)
+		return
+	}
 	if idx%13 == 6 && c.Lane != "race" {
 		c10PartialTimes(c, idx)
 		return
